@@ -483,7 +483,15 @@ def check_fixed_point(p, ci, li, k, ei, variant):
     rp = {'part': 'fixed_point', 'constellation': ci, 'cf_list': li, 'k': k, 'expected': ei, 'variant': variant}
     bs, cfs = make_system(ci, CF_LISTS[li])
     expected = np.array(EXPECTED_POINTS[ei], dtype=float)
-    if variant == 'aligned':
+    if variant == 'aliased':
+        # the same Pose object referenced several times (a stationary Crazyflie sampled repeatedly, two stations
+        # seeded from one object): every occurrence is scaled by the factor, once
+        cfs = ([cfs[0]] * 3 + list(cfs)) if cfs else cfs
+        ks = list(bs)
+        if len(ks) >= 2:
+            bs = dict(bs)
+            bs[ks[1]] = bs[ks[0]]
+    if variant in ('aligned', 'aliased'):
         act_t = expected / k                      # the estimated position is the true one shrunk by k
     else:
         act_t = rodrigues((0.2, -0.1, 0.15)) @ expected / k      # same length, slightly different direction
@@ -641,7 +649,7 @@ def part_scale(job):
             for li in range(len(CF_LISTS)):
                 for k in scales:
                     for ei in range(len(EXPECTED_POINTS)):
-                        for variant in ('aligned', 'off_direction'):
+                        for variant in ('aligned', 'off_direction', 'aliased'):
                             check_fixed_point(p, ci, li, k, ei, variant)
                             smp = None
                             if (ci, li, k, ei, variant) == (1, 2, 1.37, 2, 'aligned'):
@@ -682,7 +690,7 @@ def run(ck):
                '30 deg envelope = (rotation axes x angles %r deg, de-duplicated at 0) x %d translations x '
                '{none, flipZ, flipX, flipY} x 2 x-axis layouts x 3 plane layouts x {exact, +-1 mm} x 3 constellations '
                '(2/3/4 stations), plus %d cases with rotations %r deg for the rigid-motion clauses only; scaler: '
-               'scale_fixed_point 3 constellations x 3 cf lists x %d factors x 4 reference points x 2 variants, '
+               'scale_fixed_point 3 constellations x 3 cf lists x %d factors x 4 reference points x 3 variants (aligned, off direction, aliased pose objects), '
                'scale_diagonals 3 sample structures x %d factors x 2 expected diagonals, and the deck diagonal '
                'constant. distinct = distinct grid points'
                % (n_env, ANGLES_QUICK + (ANGLES_MORE if thorough else ()),
